@@ -456,13 +456,20 @@ type tryLocker interface {
 // only running goroutine.
 func MuLock(mu tryLocker, site int32) {
 	s := S
-	if s == nil || s.thr == nil || s.thr.ts == nil {
+	if s == nil {
 		mu.Lock()
 		return
 	}
+	if s.thr == nil || s.thr.ts == nil {
+		// one caller thread: a lock that is not free can never become free
+		if !mu.TryLock() {
+			panic(&Diverged{Kind: "deadlock", Site: site, Depth: s.cur.Depth, Steps: s.cur.Steps})
+		}
+		return
+	}
 	for spins := 0; !mu.TryLock(); spins++ {
-		if spins > 100000 {
-			panic(&Infra{"simulated lock never released (deadlock in woven code?)"})
+		if spins > 20000 {
+			panic(&Diverged{Kind: "deadlock", Site: site, Depth: s.cur.Depth, Steps: s.cur.Steps})
 		}
 		s.yield(site, yLock)
 	}
@@ -489,13 +496,19 @@ type tryRLocker interface {
 // none, since reader-reader pairs never conflict).
 func MuRLock(mu tryRLocker, site int32) {
 	s := S
-	if s == nil || s.thr == nil || s.thr.ts == nil {
+	if s == nil {
 		mu.RLock()
 		return
 	}
+	if s.thr == nil || s.thr.ts == nil {
+		if !mu.TryRLock() {
+			panic(&Diverged{Kind: "deadlock", Site: site, Depth: s.cur.Depth, Steps: s.cur.Steps})
+		}
+		return
+	}
 	for spins := 0; !mu.TryRLock(); spins++ {
-		if spins > 100000 {
-			panic(&Infra{"simulated read lock never released"})
+		if spins > 20000 {
+			panic(&Diverged{Kind: "deadlock", Site: site, Depth: s.cur.Depth, Steps: s.cur.Steps})
 		}
 		s.yield(site, yLock)
 	}
@@ -534,8 +547,8 @@ func OnceDo(o *sync.Once, f func(), site int32) {
 		if !st.running {
 			break
 		}
-		if spins > 100000 {
-			panic(&Infra{"simulated sync.Once never completed"})
+		if spins > 20000 {
+			panic(&Diverged{Kind: "deadlock", Site: site, Depth: s.cur.Depth, Steps: s.cur.Steps})
 		}
 		s.yield(site, yLock)
 	}
